@@ -125,7 +125,7 @@ pub trait Property: Sync + Send + 'static {
     }
     /// run the random search in a supervised child (abort / stack overflow / hang become observable)
     fn supervised(&self) -> bool {
-        false
+        true
     }
     fn generate(&self, tape: &mut Tape, ctx: &Ctx) -> Self::Case;
     fn check(&self, case: &Self::Case, ctx: &Ctx, obs: &mut Obs) -> Result<(), Failure>;
